@@ -459,3 +459,46 @@ Definition walk_tree (dbg : bool) (e : enc) (tbl : abbrevs) (t : tree_st)
   | Panic => Panic
   | OutOfFuel => OutOfFuel
   end.
+
+(* the same recursion when the caller does not descend into every node: `sel` decides whether the
+   children of an entry are iterated; the next call of EntriesTreeIter::next on the parent's iterator
+   then has to skip the subtree itself (slow path, or DW_AT_sibling fast path of EntriesTree::next).
+   Result: the entries visited, in order. Correspondence only (streams c02.forest / c02.nav, token
+   `skip`). *)
+Fixpoint walk_sel (fuel : nat) (dbg : bool) (e : enc) (tbl : abbrevs) (sel : die -> bool) (depth : Z) (t : tree_st)
+  : res (list die * option error * tree_st) :=
+  match fuel with
+  | O => OutOfFuel
+  | S k =>
+      let* s := tree_next (tree_fuel t) dbg e tbl depth t in
+      match s with
+      | TErr x t' => Ok ([], Some x, t')
+      | TOk false t' => Ok ([], None, t')
+      | TOk true t' =>
+          let d := tr_entry t' in
+          let* (sub, err, t2) :=
+            (if sel d then walk_sel k dbg e tbl sel (depth + 1) t' else Ok ([], None, t')) in
+          match err with
+          | Some x => Ok (d :: sub, Some x, t2)
+          | None =>
+              let* (rest, err', t3) := walk_sel k dbg e tbl sel depth t2 in
+              Ok (d :: sub ++ rest, err', t3)
+          end
+      end
+  end.
+
+Definition walk_tree_sel (dbg : bool) (e : enc) (tbl : abbrevs) (sel : die -> bool) (t : tree_st)
+  : res (list die * option error) :=
+  match tree_root dbg e tbl t with
+  | Ok t1 =>
+      let* (l, err, _) :=
+        (if sel (tr_entry t1) then walk_sel (S (S (length (tr_root t)))) dbg e tbl sel 1 t1
+         else Ok ([], None, t1)) in
+      Ok (tr_entry t1 :: l, err)
+  | Err x => Ok ([], Some x)
+  | Panic => Panic
+  | OutOfFuel => OutOfFuel
+  end.
+
+(* the selection used by the streams: descend unless the entry's offset is a multiple of 3 *)
+Definition sel_mod3 (d : die) : bool := negb (d_offset d mod 3 =? 0).
